@@ -198,6 +198,7 @@ func runC02(c *Ctx, r *Report) {
 	}
 	r.floor("entries of the accent table", n, 300)
 	defer c02r3(c, r)
+	defer c13r3(c, r) // workers of a cancelled scan must be gone before their slabs are handed out again (crash otherwise)
 	defer func() {
 		r.rule("C02-R4", "H + A (shared with C03-R2)", "P1", "slab-independent bound on the pattern length before the int16 score matrices (and the slab-size headroom of C03-R2)", "matching crashes (index out of range in the back-trace) for a very long pattern when no slab / a larger slab is used")
 		sm, _ := constOf(l, "algo", "scoreMatch")
@@ -420,6 +421,7 @@ func runC05(c *Ctx, r *Report) {
 		r.floor(an+" call sites", total, 2)
 	}
 	c05r3(c, r)
+	c13r3(c, r)   // a cancelled scan joins its workers before the slabs are reused
 	c04r3(c, r)   // order purity: merge must agree with the per-partition sort
 	c08r5(c, r)   // per-item tokens must not survive a change of --nth
 	c08r3(c, r)   // nth/denylist change invalidates caches and bumps the revision
